@@ -3,6 +3,8 @@
 R-C20-1 (DRV): on every mode path of setup()+solve() and of the statistics accessors, every scalar that is read has
          been assigned, every list access is in range, no null input-function pointer is dereferenced, no disabled
          tolerance is unwrapped, every vector/operator used is allocated/initialised by setup() in that mode.
+R-C20-4 (DRV): on every such path the statistics accessors equal their defining terms (iteration count, reduction factor
+         as (last/first residual norm)^(1/k), error figures of the iterate the last stop test examined).
 R-C20-2 (STRUCT): option tables — for every enum-typed option the parser's validity test admits exactly the
          enumerators, every library switch on it names every enumerator or has a throwing default, every
          static_cast to the enum is dominated by the test.
@@ -31,8 +33,59 @@ def modes(tier):
                    "max_iterations": mi, "abs_tol": a, "rel_tol": r, "exact": ex, "norm": 0, "verbose": vb, "paraview": pv}
 
 
+def statistic_problems(mode, o):
+    """compare the four accessors with what the property calls 'a well-defined function of that solve'"""
+    from fractions import Fraction
+    from gmg.terms import fn as tfn
+    S = drv.S
+    probs = []
+    cc = o.converged_calls
+    its = o.iterations
+    tol = mode["abs_tol"] or mode["rel_tol"]
+    acc = {k.split("::")[-1]: v for k, v in o.accessors.items()}
+    stopped = bool(cc) and cc[-1]["result"] is True
+    if not isinstance(its, int) or isinstance(its, bool):
+        return ["numberOfIterations: the iteration count is %s, not a number determined by this path" % sr.describe(its)[:80]]
+    want_its = (len(cc) - 1) if stopped else mode["max_iterations"]
+    if its != want_its:
+        probs.append("numberOfIterations: %d cycles were applied but number_of_iterations_ is %d" % (want_its, its))
+    if acc.get("numberOfIterations") != its:
+        probs.append("numberOfIterations: the accessor returns %s, the member holds %d" % (sr.describe(acc.get("numberOfIterations"))[:60], its))
+    rho = acc.get("meanResidualReductionFactor")
+    if its == 0 or not tol:
+        if rho != Fraction(1) and rho != 1:
+            probs.append("meanResidualReductionFactor: no reduction was measured on this path (iterations=%d, tolerances %s) but the accessor returns %s" % (its, "enabled" if tol else "disabled", sr.describe(rho)[:120]))
+    else:
+        n0 = cc[0]["args"][0]
+        cands = [cc[-1]["args"][0]]
+        ok = any(rho == S("pow", S("/", nk, n0), Fraction(1, its)) for nk in cands)
+        if not ok:
+            probs.append("meanResidualReductionFactor: expected (||r_k|| / ||r_0||)^(1/%d) with the first and the last residual norm measured in this solve, got %s" % (its, sr.describe(rho)[:300]))
+    for name, head in (("exactErrorWeightedEuclidean", "errW"), ("exactErrorInfinity", "errInf")):
+        v = acc.get(name)
+        if isinstance(v, drv.OptVal) if hasattr(drv, "OptVal") else False:
+            v = v.value if v.has else None
+        n_err = len(o.exact_errors)
+        if not mode["exact"] or n_err == 0:
+            if v is not None and not (isinstance(v, tuple) and v and v[0] == "nullopt"):
+                probs.append("%s: no error was measured on this path (exact solution %s, %d measurements) but the accessor returns %s" % (name, "given" if mode["exact"] else "absent", n_err, sr.describe(v)[:100]))
+            continue
+        if not (isinstance(v, tuple) and len(v) == 3 and v[0] == "s" and v[1] == head):
+            probs.append("%s: expected the %s norm of the error of an iterate, got %s" % (name, "weighted Euclidean" if head == "errW" else "maximum", sr.describe(v)[:200]))
+            continue
+        arg = v[2]
+        if stopped or (tol and cc):
+            U = cc[-1]["solution"]
+            if arg is not tfn("Err", 0, U):
+                probs.append("%s: the figure is the error of %s, not of the iterate the last stop test examined (%s)" % (name, sr.describe(arg)[:160], "the returned solution" if stopped else "the last measured iterate"))
+        if stopped and cc[-1]["solution"] is not o.solution:
+            probs.append("%s: the stop test accepted an iterate that is not the returned solution" % name)
+    return probs
+
+
 def main(tier):
-    ck = report.Check("C20", tier, level="other", technique="static definite-assignment / definedness analysis of setup()+solve()+accessors per option mode; structural option-table rules")
+    ck = report.Check("C20", tier, level="other", technique="static definedness and value-flow analysis (scalar terms) of setup()+solve()+accessors per option mode against statistic oracles; structural option-table rules")
+    ck.rule("R-C20-4", "statistics after solve(): iteration count == cycles applied; reduction factor == (||r_k||/||r_0||)^(1/k) of this solve's residual norms (1 when nothing was measured); error figures == weighted-l2 / max norm of the error of an iterate of this solve, the returned one whenever a tolerance stopped the loop; absent without exact solution", floor=100)
     ck.rule("R-C20-1", "every read on every mode path of setup()+solve()+accessors is defined (no uninitialised scalar, empty-list access, null input function, disabled optional, unallocated vector)", floor=100)
     prog = sr.load()
     ck.units += prog.units
@@ -62,6 +115,14 @@ def main(tier):
                     ck.violation("R-C20-1", key, ev.site, "%s: %s (in %s)" % (pk, ev.msg, ev.fn))
             else:
                 ck.ok("R-C20-1", pk, sample={"mode": what, "accessors": {k: sr.describe(v)[:60] for k, v in o.accessors.items()}} if n_paths % 101 == 1 else None)
+            # ---- R-C20-4: what each statistic is a function of
+            if not o.throws:
+                ck.instance("R-C20-4", pk)
+                sp = statistic_problems(mode, o)
+                if sp:
+                    ck.violation("R-C20-4", "statistic:%s" % sp[0].split(":")[0], ir.locstr(prog.fn("GMGPolar::solve")), "%s: %s" % (pk, "; ".join(sp)[:900]))
+                else:
+                    ck.ok("R-C20-4", pk)
     ck.extra["modes"] = n_modes
     ck.extra["paths"] = n_paths
     try:
